@@ -70,6 +70,10 @@ class Ctx:
         return wire.run_driver(lines, exe_name=self.driver)
 
     def elapsed(self):
+        """seconds since the correspondence started (the build is not counted against a tier's budget)"""
+        return time.time() - getattr(self, "t_corr", self.t0)
+
+    def wall(self):
         return time.time() - self.t0
 
     def budget(self, quick, thorough):
@@ -139,7 +143,7 @@ def write_evidence(mod, ctx, obligations, discharged, audit, checker_cmd, nviol,
         "property_id": ctx.pid, "tier": ctx.tier, "seed": ctx.seed, "level": level,
         "coverage": cov,
         "assumptions": list(getattr(mod, "ASSUMPTIONS", [])) + ctx.notes,
-        "wall_s": round(ctx.elapsed(), 2),
+        "wall_s": round(ctx.wall(), 2),
         "violations": nviol,
     }
     os.makedirs(os.path.join(ROOT, "evidence"), exist_ok=True)
@@ -164,6 +168,7 @@ def main(argv):
     ctx.repo = scratch.make_scratch("allfed-verif-%s" % pid.lower())
     scratch.enter(ctx.repo)
 
+    ctx.driver = getattr(mod, "DRIVER", None) or "driver"
     if replay:
         rep = json.load(open(replay if os.path.isabs(replay) else os.path.join(ROOT, replay)))
         ok, detail = mod.replay(ctx, rep)
@@ -212,6 +217,7 @@ def main(argv):
 
     # 4./5. correspondence + executable property oracle on the implementation
     if driver_ok:
+        ctx.t_corr = time.time()
         try:
             mod.correspondence(ctx)
         except Exception as e:
@@ -270,7 +276,7 @@ def main(argv):
         for l in known_lines:
             print(l)
         print("OK property=%s tier=%s seed=%d obligations=%d/%d cases=%d distinct=%d wall=%.1fs" % (
-            pid, tier, seed, len(discharged), len(obligations), ctx.evaluations, len(ctx.distinct), ctx.elapsed()))
+            pid, tier, seed, len(discharged), len(obligations), ctx.evaluations, len(ctx.distinct), ctx.wall()))
     write_evidence(mod, ctx, obligations, discharged, audit, checker_cmd,
                    len(new_viol) + (1 if (tie_broken and not new_viol) else 0), known_lines)
     return rc
